@@ -12,11 +12,10 @@ open Asts Asts.L1c
 structure PreC (j : SyncIn) : Prop where
   spec : SpecOk j
   pods : ∀ c ∈ j.pods, (c.owner = .self ∨ c.owner = .none) ∧ c.member = true ∧ c.selMatch = true ∧
-    c.name = canonicalName j.setName c.pod.ord ∧ 0 ≤ c.pod.ord ∧ c.pod.ord < maxInt32 ∧ c.pod.stOk = true ∧ c.pod.created = true
+    c.name = canonicalName j.setName c.pod.ord ∧ 0 ≤ c.pod.ord ∧ c.pod.stOk = true ∧ c.pod.created = true
   ords : (j.pods.map (·.pod.ord)).Nodup
   small : j.pods.length ≤ freshId
   smallR : (replicasOf j.view).toNat ≤ freshId
-  smallB : replicasOf j.view + j.view.slots.length ≤ maxInt32
   gone : j.fresh.gone = false
   uid : j.fresh.uidOk = true
   fdel : j.fresh.deleting = false
